@@ -33,8 +33,8 @@ type c08Op struct {
 	Expr     string `json:"expr,omitempty"`
 }
 
-// c08Case is the replay case of C08.
-type c08Case struct {
+// c08Hist is one history over one compiled bundle.
+type c08Hist struct {
 	Bundle     *gen.Case `json:"bundle"`
 	Obligatory []string  `json:"obligatory,omitempty"`
 	Ops        []c08Op   `json:"ops"`
@@ -64,8 +64,16 @@ func illTyped(d gen.DVal, salt int) gen.DVal {
 	return out
 }
 
+// c08Case is the replay case of C08: every history this worker process executed, in order, up to
+// and including the failing one.  State that lives in the process rather than in one bundle
+// (package-level caches, free lists) is thereby part of the replay; the minimiser drops the
+// histories that do not matter.
+type c08Case struct {
+	Histories []*c08Hist `json:"histories"`
+}
+
 type c08State struct {
-	cs       *c08Case
+	cs       *c08Hist
 	cc       *sut.Compiled
 	data     []data.Map
 	ill      []data.Map
@@ -166,13 +174,12 @@ func validEntry(c *gen.Case, op c08Op) bool {
 }
 
 // c08Exec runs a history and applies the invariants after every operation.
-func c08Exec(cs *c08Case, counters map[string]int64) (*wk.Failure, int) {
+func c08Exec(cs *c08Hist, counters map[string]int64) (*wk.Failure, int) {
 	sut.InstallExtensions()
 	sut.SetObligatory(cs.Obligatory)
 	defer sut.SetObligatory(nil)
 	mk := func(class, site, detail string) *wk.Failure {
-		b, _ := json.Marshal(cs)
-		return &wk.Failure{Class: class, Site: site, Detail: detail, Replay: b}
+		return &wk.Failure{Class: class, Site: site, Detail: detail} // the caller attaches the process log as replay
 	}
 	cc, err := sut.Compile(cs.Bundle)
 	if err != nil {
@@ -317,8 +324,8 @@ func c08Opts() gen.Opts {
 }
 
 // c08History draws a history over the case.
-func c08History(r *simrt.RNG, gc *gen.Case, maxLen int) *c08Case {
-	cs := &c08Case{Bundle: gc}
+func c08History(r *simrt.RNG, gc *gen.Case, maxLen int) *c08Hist {
+	cs := &c08Hist{Bundle: gc}
 	switch r.Intn(4) {
 	case 1:
 		cs.Obligatory = []string{"vbang"}
@@ -371,26 +378,44 @@ func c08History(r *simrt.RNG, gc *gen.Case, maxLen int) *c08Case {
 
 // C08 is the worker entry point for property C08.
 func C08(c *wk.Ctx) {
-	runHist := func(cs *c08Case, counters map[string]int64) (f *wk.Failure, done int, steps int64, budget bool) {
+	var processLog []*c08Hist
+	attach := func(f *wk.Failure) *wk.Failure {
+		if f != nil && f.Class != "invalid-case" && f.Replay == nil {
+			b, _ := json.Marshal(&c08Case{Histories: processLog})
+			f.Replay = b
+		}
+		return f
+	}
+	runHist := func(cs *c08Hist, counters map[string]int64) (f *wk.Failure, done int, steps int64, budget bool) {
+		processLog = append(processLog, cs)
 		if c.Variant == "inst" || c.Variant == "race" {
 			res := simrt.Run(simrt.Config{Budget: 200_000_000}, func() { f, done = c08Exec(cs, counters) })
 			if res.Budget || res.Deadlock {
-				b, _ := json.Marshal(cs)
-				return &wk.Failure{Class: "budget", Site: SiteName(res.AbortSite), Detail: "history did not finish within the step budget (a C06 condition)", Replay: b}, done, res.Steps, true
+				return attach(&wk.Failure{Class: "budget", Site: SiteName(res.AbortSite), Detail: "history did not finish within the step budget (a C06 condition)"}), done, res.Steps, true
 			}
-			return f, done, res.Steps, false
+			return attach(f), done, res.Steps, false
 		}
 		f, done = c08Exec(cs, counters)
-		return f, done, 0, false
+		return attach(f), done, 0, false
 	}
 	LoadSites(c.Sites)
 	if c.Mode == "replay" {
 		var cs c08Case
 		readReplay(c, &cs)
 		u := wk.NewUnit(0)
-		f, done, steps, _ := runHist(&cs, u.Counters)
-		u.Evals, u.Steps = int64(done), steps
-		u.AddFail(f)
+		for _, h := range cs.Histories {
+			if h == nil || h.Bundle == nil {
+				u.AddFail(&wk.Failure{Class: "invalid-case", Detail: "empty history"})
+				break
+			}
+			f, done, steps, _ := runHist(h, u.Counters)
+			u.Evals += int64(done)
+			u.Steps += steps
+			if f != nil && f.Class == "invalid-case" {
+				continue // a history made invalid by minimisation contributes nothing
+			}
+			u.AddFail(f)
+		}
 		c.Emit(u)
 		return
 	}
